@@ -209,10 +209,10 @@ func Explore(run *ev.Run, m Model) Stats {
 				}
 			}
 		}
-		for i, out := range results {
+		for _, out := range results {
 			for _, su := range out {
-				// (an event that leaves the state unchanged makes a poor "other history": skipped)
-				if seen[su.canon] && m.CheckMerges > 0 && altCount[su.canon] < m.CheckMerges && depth+1 < m.MaxDepth && su.canon != frontier[i].canon {
+				// (an event that leaves the canonical state unchanged counts: a read may plant private state)
+				if seen[su.canon] && m.CheckMerges > 0 && altCount[su.canon] < m.CheckMerges && depth+1 < m.MaxDepth {
 					altCount[su.canon]++
 					next = append(next, item{hist: su.hist, canon: su.canon, alt: true})
 					continue
